@@ -42,6 +42,7 @@ type Prop struct {
 	SpecMode string // "equal" (sub 1 output vs impl), "rel" (sub 2 verdict), "none"
 	Gen      func(c *Ctx)
 	Impl     func(in []int64) []int64
+	ImplM    func(in, model []int64) []int64    // optional: implementation driven by the model's answer (schedules)
 	Shrink   func(in []int64) [][]int64         // optional: smaller candidate inputs
 	Known    func(in, out []int64) string       // optional: id of the known finding this failing case belongs to
 	Oracle   func(q []int64) []int64            // optional: answers ASK queries of the model
@@ -291,12 +292,19 @@ func (t *T) eval(in []int64) *Failure {
 
 func (t *T) eval2(in []int64) (*Failure, []int64) {
 	p := t.C.P
-	impl := SafeImpl(p, in)
-	var model, spec []int64
+	var impl, model, spec []int64
+	if p.ImplM == nil {
+		impl = SafeImpl(p, in)
+	}
 	if p.Oracle != nil {
 		model = t.M.CallOracle(p, 0, in)
 	} else {
 		model = t.M.Call(p.Num, 0, in)
+	}
+	if p.ImplM != nil {
+		q := *p
+		q.Impl = func(x []int64) []int64 { return p.ImplM(x, model) }
+		impl = SafeImpl(&q, in)
 	}
 	specOK := true
 	switch p.SpecMode {
